@@ -1,5 +1,8 @@
-"""Model side of the bridge check (IterBridge.tla)."""
+"""Model side of the bridge check: exhaustive TLC runs of specs/bridge/IterBridge.tla."""
 
 
 def model_check(ctx):
-    pass
+    for f in ('-1', '0', '1', '2', '3'):
+        ctx.mc('bridge', 'MC_IterBridge', 'IB_3_f%s.cfg' % f, timeout=300)
+    ctx.mc('bridge', 'MC_IterBridge', 'W_result.cfg', expect_violation='ErrorAfterN', timeout=300)
+    ctx.mc('bridge', 'MC_IterBridge', 'W_leak.cfg', expect_violation='NeverLeaked', timeout=300)
